@@ -6,7 +6,7 @@ Model of the layer-1 spend check (property C08):
 
 Rust                                                            Lean
 ----                                                            ----
-`estimate_feerate_per_kw` (transaction_utils.rs, saturating)     `estimateFeerate`
+exact u128 feerate of `validate_beneficial_value`               `impliedFeerate`
 `PolicyFilter::filter(tag) == Error` for the tags used           `Filter` (one Bool per tag)
 `Wallet::can_spend` / `allowlist_contains` (node.rs)             inputs `Out.canSpend`, `Out.scriptAllow`, `Out.xpub`
 `find_channel_with_funding_outpoint` + channel facts             input `Out.chan : Option ChanFacts`
@@ -78,10 +78,11 @@ structure Policy where
   flt : Filter
 deriving DecidableEq, Repr
 
-/-- `estimate_feerate_per_kw(total_fee, weight)`; `none` = division by zero panic -/
-def estimateFeerate (fee weight : Nat) : Option Nat :=
-  if weight = 0 then none
-  else some (U32.clamp (U64.satAdd (U64.satMul fee 1000) 999 / weight))
+/-- the exact implied feerate of `validate_beneficial_value` (after fix 3751e9c):
+    `(non_beneficial as u128 * 1000 + 999) / weight as u128`; no overflow is possible in u128
+    (`u64::MAX·1000 + 999 < 2^128`), so this is plain `Nat` arithmetic; `none` = division by zero panic -/
+def impliedFeerate (fee weight : Nat) : Option Nat :=
+  if weight = 0 then none else some ((fee * 1000 + 999) / weight)
 
 inductive XpubRes | yes | no | panic
 deriving DecidableEq, Repr
@@ -181,7 +182,7 @@ def beneficialValue (p : Policy) (sumIn sumOut weight : Nat) : Res :=
   match U64.checkedSub sumIn sumOut with
   | none => .err .fmtStandard            -- "non-beneficial value underflow", unfiltered
   | some nb =>
-    match estimateFeerate nb weight with
+    match impliedFeerate nb weight with
     | none => .panic
     | some fr =>
       if p.maxFeerate < fr ∧ p.devDisable = false ∧ p.flt.feeRange then .err .feeRange
